@@ -496,6 +496,13 @@ def chainLine (sp : TSpec) : S :=
   -- "accepted by the compiler, refused by the client" cannot happen (`C16_list_defaults_chain`)
   let verdicts := (specProps sp).map (defaultsVerdict sp.schemas)
   if verdicts.any (·.isNone) then "compile-err" else
+  -- list methods: the compiler refuses a `QueryRequest` method whose response is not exactly one
+  -- array of objects (`fix:` 57821b0, `compileListShapeOk`); the entity query service passes by construction
+  let nodes0 := allNodes sp
+  let badList := (allServicesT sp).any fun sv => sv.methods.any fun m =>
+    m.req.any isQueryProp && !compileListShapeOk
+      (if m.hasResp then some (m.resp.map (propOf nodes0 "service." (m.name ++ "Response"))) else none)
+  if badList then "compile-err" else
   -- open finding at the image -> API stage: an entity without events (empty event oneof, C17's finding)
   if sp.entities.any (·.events.isEmpty) then "fail api" else
   if verdicts.any (· == some false) then "fail client" else
